@@ -1,5 +1,5 @@
 CONSTANTS Budget = 6 Sim = TRUE Start = "FILE"
-  Masked = {"todo_operand", "none_p_neg", "p_as_var"}
+  Masked = {"todo_operand", "none_p_neg"}
 SPECIFICATION Spec
 INVARIANTS Balanced
 CHECK_DEADLOCK FALSE
